@@ -61,7 +61,31 @@ def write_workspace(root, cases, feature, shard_fn=None, order_rng=None):
     return index
 
 
-def run_workspace(root, feature, tag, release=False):
+def run_group(cmd, cwd, env, timeout):
+    """like common.run, but in a process group of its own that is killed as a whole when the time is up: a macro that does not
+    terminate leaves rustc processes behind which cargo's own death would not stop. Returns rc None on timeout."""
+    import signal
+    import time
+    from common import OFFLINE_ENV
+    e = dict(os.environ)
+    e.update(OFFLINE_ENV)
+    e.update(env)
+    t0 = time.time()
+    p = subprocess.Popen(cmd, cwd=cwd, env=e, stdout=subprocess.PIPE, stderr=subprocess.STDOUT, text=True, errors="replace", start_new_session=True)
+    try:
+        out, _ = p.communicate(timeout=timeout)
+        return p.returncode, out or "", time.time() - t0
+    except subprocess.TimeoutExpired:
+        try:
+            os.killpg(p.pid, signal.SIGKILL)
+        except ProcessLookupError:
+            pass
+        out, _ = p.communicate()
+        log("[corpus] cargo check did not finish within %d s: the compiler processes were killed" % timeout)
+        return None, out or "", time.time() - t0
+
+
+def run_workspace(root, feature, tag, release=False, timeout=3000):
     """cargo check with the recorder on; returns list of dump files.
     release: build the macro under the release profile (no debug assertions, no overflow checks in the macro crate)"""
     prefix = os.path.join(root, "dump")
@@ -70,9 +94,9 @@ def run_workspace(root, feature, tag, release=False):
     target = os.path.join(WORK, "target-corpus-%s" % ("on" if feature else "off"))
     env = {"RUSTFLAGS": "--cfg %s --cap-lints allow" % GUARD, "ENTRAIT_VERIF_DUMP": prefix, "CARGO_TARGET_DIR": target,
            "CARGO_INCREMENTAL": "0"}
-    rc, out, dt = run(["cargo", "check", "--offline", "--workspace", "--keep-going", "-j", "16", "--message-format=short"] +
-                      (["--release"] if release else []), cwd=root, env=env, timeout=3000)
-    log("[corpus] cargo check (%s, feature=%s%s): rc=%d %.1fs" % (tag, feature, ", release profile" if release else "", rc, dt))
+    rc, out, dt = run_group(["cargo", "check", "--offline", "--workspace", "--keep-going", "-j", "16", "--message-format=short"] +
+                            (["--release"] if release else []), root, env, timeout)
+    log("[corpus] cargo check (%s, feature=%s%s): rc=%s %.1fs" % (tag, feature, ", release profile" if release else "", rc, dt))
     if "could not compile `entrait_macros`" in out or "could not compile `entrait`" in out or "error: failed to" in out:
         log(out[-3000:])
         raise SystemExit(2)
@@ -167,7 +191,8 @@ def run_cases(cases, name, root=None, shard_fn=None, order_rng=None, features=(F
         fname = "on" if feature else "off"
         ws = os.path.join(root, fname)
         index = write_workspace(ws, cases, feature, shard_fn, order_rng)
-        dumps, out, panics = run_workspace(ws, feature, name, release)
+        # generous: a quick corpus takes well under a minute, a thorough one about ten; a macro that does not terminate takes forever
+        dumps, out, panics = run_workspace(ws, feature, name, release, timeout=240 + int(0.03 * len(cases)))
         rows = model_rows(dumps, ws)
         attributed, unattributed, missing = attribute(rows, index, cases)
         result["rows"][fname] = attributed
